@@ -62,8 +62,9 @@ def main():
         proof_ok = False
         path = write_replay(pid, "proof", dict(theorem="(audit)", detail="forbidden constructs in the Coq development", lines=bad))
         violations.append((path, False, "audit"))
-    target = "theories/Props/%s.vo" % spec["module"]
-    ok, log = coq_make([target] + spec.get("extra_targets", []))
+    modules = spec.get("modules", [spec["module"]])
+    target = " ".join("theories/Props/%s.vo" % m for m in modules)
+    ok, log = coq_make(target.split() + spec.get("extra_targets", []))
     cov["checker_cmd"] = "coq_makefile -f _CoqProject -o Makefile && make -j%d %s   (cwd /verif/coq; full .vo build)" % (NPROC, target)
     thms = []
     if not ok:
@@ -72,11 +73,18 @@ def main():
         path = write_replay(pid, "proof", dict(theorem=target, detail="the Coq development no longer builds", log=log[-5000:], errors=err))
         violations.append((path, False, "proof-build"))
         import re as _re
-        thms = _re.findall(r"^\s*Theorem\s+(\w+)", strip_comments(open(os.path.join(COQ, "theories", "Props", spec["module"] + ".v")).read()), flags=_re.M)
+        thms = []
+        for m in modules:
+            thms += _re.findall(r"^\s*Theorem\s+(\w+)", strip_comments(open(os.path.join(COQ, "theories", "Props", m + ".v")).read()), flags=_re.M)
         cov["obligations"] = len(thms)
         cov["discharged"] = 0
     else:
-        thms, assum, raw = print_assumptions(spec["module"])
+        thms, assum, raw = [], {}, ""
+        for m in modules:
+            t_, a_, r_ = print_assumptions(m)
+            thms += t_
+            assum.update(a_)
+            raw += r_
         cov["obligations"] = len(thms)
         open_ax = {t: a for t, a in assum.items() if not a.startswith("Closed under the global context")}
         allowed = spec.get("allowed_axioms", [])
@@ -93,11 +101,11 @@ def main():
             path = write_replay(pid, "proof", dict(theorem=list(really_open), detail="Print Assumptions is not closed", output=really_open))
             violations.append((path, False, "assumptions"))
         assumptions.append("Print Assumptions for %d theorems of Props/%s.v: %s" % (
-            len(thms), spec["module"], "all 'Closed under the global context'" if not open_ax else json.dumps(open_ax)))
+            len(thms), ",".join(modules), "all 'Closed under the global context'" if not open_ax else json.dumps(open_ax)))
         if tier == "thorough" and spec.get("coqchk", True):
             import subprocess
             try:
-                p = subprocess.run(["coqchk", "-o", "-silent", "-Q", os.path.join(COQ, "theories"), "CacheD", "CacheD.Props.%s" % spec["module"]],
+                p = subprocess.run(["coqchk", "-o", "-silent", "-Q", os.path.join(COQ, "theories"), "CacheD"] + ["CacheD.Props.%s" % m for m in modules],
                                    capture_output=True, text=True, timeout=1500, cwd=COQ)
                 tail = (p.stdout + p.stderr)[-1500:]
                 assumptions.append("coqchk -o: " + " ".join(tail.split())[-600:])
